@@ -187,6 +187,9 @@ Fixpoint next_tab (tab : list (Z * Z)) (w : Z) : Z :=
   end.
 
 (* one observed step: the label, what the implementation called on its collaborators while handling it,
+   (o_conn, for the Open of an attempt: Some true = the endpoint was reachable during the whole attempt,
+   Some false = it was unreachable (or no connect was made) when the attempt started, None = reachable at the
+   start but not throughout: honest_open then allows either outcome),
    the value of the `state` property right afterwards (when recorded; 0 = Closed, 1 = Idle, 2 = other;
    compared when the model's answer does not depend on the sink underneath), and - for LOpen and LOpenDone - the
    outcome of the connect attempt the underlying Open made on the (fake) network *)
@@ -227,7 +230,7 @@ Fixpoint replay (c : case) (s : state) (pend : bool) (os : list ostep) (n : Z) :
           (* interface contract of the underlying sink (honest_open) on this step *)
           let honest := match o_label o, o_conn o with
                         | LOpenDone ok, Some reach => Bool.eqb ok reach
-                        | LOpenDone _, None => false
+                        | LOpenDone _, None => true
                         | LTick _, _ => negb pend
                         | _, _ => true
                         end in
